@@ -101,6 +101,29 @@ def r16_1(ctx):
             ctx.check(R, ok_upd, 'step-consumes-output', 'a descent step does not subtract the output of the transition it follows from the remaining value: %s' % fmt(upd)[:100], fn=g)
     if n_true == 0:
         ctx.undecided(R, 'success-condition', 'no path returning true found in %s' % g.path, fn=g)
+    # the node a step starts from must have been tested for success first (the root included: the empty key is a key)
+    nodes = [l for l in g.locals if g.local_ty(l).startswith('raw::node::Node<') and g.locals[l].get('name')]
+    n_chk = 0
+    for p in explore(g, max_visits=1, havoc=True):
+        cs = path_calls(p)
+        pushes = [c for c in cs if isinstance(c[2], str) and c[2].endswith('::push') and arg_loc(g, c[4], 0) is not None and arg_loc(g, c[4], 0)[0] == 3]
+        if not pushes:
+            continue
+        n_chk += 1
+        k_push = pushes[0][0]
+        tested = False
+        for d in p.decisions:
+            if d[0] >= k_push:
+                break
+            for x in walk(d[2]):
+                if x[0] == 'call' and x[1] == IS_FINAL:
+                    a = x[2][0]
+                    if (a[0] == 'havoc' and len(a[1]) == 1 and a[1][0] in nodes) or (a[0] == 'call' and isinstance(a[1], str) and a[1].endswith('::root')):
+                        tested = True
+        ctx.check(R, tested, 'test-before-step', 'a descent step is taken from a node that was not first tested for "final and final output = remaining value": the key ending at that node (the empty key at the root) can never be reported',
+                  fn=g, at=pushes[0][4].get('span'))
+    if n_chk == 0:
+        ctx.undecided(R, 'test-before-step', 'no stepping path recognised', fn=g)
     return g
 
 
